@@ -46,6 +46,8 @@ def crash_signature(how, report):
     m = re.search(r"ERROR: AddressSanitizer: ([A-Za-z0-9_-]+)", text)
     if m:
         kind = "asan:" + m.group(1)
+        if "attempting double-free" in text:
+            kind = "asan:double-free"
     m2 = re.search(r"runtime error: (.*)", text)
     if kind is None and m2:
         msg = m2.group(1)
